@@ -663,7 +663,7 @@ class XsdElement(XsdComponent, ParticleMixin,
                 xsd_type = self.maps.get_instance_type(
                     type_name, xsd_type, context.namespaces
                 )
-            except (KeyError, TypeError) as err:
+            except (KeyError, TypeError, ValueError) as err:
                 context.validation_error(validation, self, err, obj)
             else:
                 if xsd_type.is_blocked(self):
@@ -908,7 +908,7 @@ class XsdElement(XsdComponent, ParticleMixin,
                 fields = tuple(
                     s.get_value(element_node, context.namespaces) for s in selectors
                 )
-            except (XMLSchemaValueError, XMLSchemaTypeError) as err:
+            except (ValueError, TypeError) as err:
                 context.validation_error(validation, self, err, obj)
             else:
                 if all(x is not None for x in fields) or nilled:
